@@ -8,7 +8,8 @@ PROP = "C12"
 # (binary64).  |impl - model| <= C * 2^-24 * magnitude, with C per operation kind (number of binary32 operations on the
 # longest path x 4, plus the transcendental calls); `arc`/`det`/`dpos`/`blor` involve binary32 coordinates (R*sin, rounding of
 # crystal positions to 0.001 mm) whose error is relative to the ring radius, hence the larger constants.
-C_KIND = {"coord": 64.0, "lor": 64.0, "tofb": 64.0, "det": 256.0, "ovl": 64.0, "arc": 8192.0, "dpos": 64.0, "blor": 4096.0}
+C_KIND = {"coord": 64.0, "lor": 64.0, "tofb": 64.0, "det": 256.0, "ovl": 64.0, "arc": 8192.0, "dpos": 64.0, "blor": 4096.0,
+          "lc2n": 64.0, "lnmk": 64.0, "ln2c": 64.0}
 
 
 def _f(bits):
@@ -44,7 +45,7 @@ def compare(op, impl, model):
     kind = op.split(" ", 1)[0]
     if impl == model:
         return True
-    if kind == "rt":
+    if kind in ("rt", "rtx", "fbin"):
         # the model lists every result that a correctly rounded nearest-detector search may return (ties of the rounding)
         cands = [c.strip() for c in model.split("|")]
         return impl in cands
@@ -52,13 +53,27 @@ def compare(op, impl, model):
         return _floats_ok(kind, impl, model)
     if kind == "det":
         return _floats_ok(kind, impl, model, skip=1)
-    if kind in ("lor", "blor"):
+    if kind == "ln2c":
+        # z1 psi1 z2 psi2 ; angles modulo 2 pi (an angle of exactly 0 may come out as 2 pi - rounding error)
+        if _floats_ok(kind, impl, model):
+            return True
+        try:
+            ta = impl.split()
+            for d1 in (0.0, 2 * math.pi, -2 * math.pi):
+                for d2 in (0.0, 2 * math.pi, -2 * math.pi):
+                    alt = " ".join([ta[0], (float.fromhex(ta[1]) + d1).hex(), ta[2], (float.fromhex(ta[3]) + d2).hex()])
+                    if _floats_ok(kind, alt, model):
+                        return True
+        except Exception:
+            pass
+        return False
+    if kind in ("lor", "blor", "lc2n", "lnmk"):
         if _floats_ok(kind, impl, model):
             return True
         # the same line in the other representation: phi -> phi +- pi reverses beta/s/tan(theta), exchanges z1,z2, toggles `swapped`
         try:
             ta, tb = impl.split(), model.split()
-            if kind == "lor":
+            if kind in ("lor", "lc2n", "lnmk"):
                 z1, z2, phi, beta, sw = ta
                 phi_m = _f(tb[2].split(":")[0])
                 phi_i = float.fromhex(phi)
